@@ -72,6 +72,10 @@ type Case struct {
 	// Early: steps applied while the operator is starting (before it became idle)
 	Early []Step `json:"early,omitempty"`
 	Steps []Step `json:"steps"`
+	// Restart: after the scenario the operator is shut down, RestartOps are applied to the cluster and a new
+	// operator is started on the same cluster and hooks
+	Restart    bool   `json:"restart,omitempty"`
+	RestartOps []Step `json:"restart_ops,omitempty"`
 }
 
 var Crontabs = []string{"0 0 1 1 *", "0 0 2 1 *", "0 0 3 1 *"}
@@ -192,6 +196,16 @@ func Gen(t *rapid.T) Case {
 	for i, n := 0, rapid.IntRange(1, 10).Draw(t, "nsteps"); i < n; i++ {
 		c.Steps = append(c.Steps, genStep())
 	}
+	if rapid.IntRange(0, 3).Draw(t, "restart") == 0 {
+		c.Restart = true
+		for i, n := 0, rapid.IntRange(0, 3).Draw(t, "nrops"); i < n; i++ {
+			st := genStep()
+			if st.K == "tick" || st.K == "settle" {
+				continue
+			}
+			c.RestartOps = append(c.RestartOps, st)
+		}
+	}
 	return c
 }
 
@@ -265,6 +279,10 @@ type Trace struct {
 	// IdleAfterStart: log position (number of executions) when the operator first became idle
 	StartupExecs int
 	HeldSyncs    int
+	// RestartIndex: number of executions before the restart (valid when Restarted)
+	Restarted        bool
+	RestartIndex     int
+	ClusterAtRestart map[string]int
 	Problems     []string
 }
 
@@ -437,6 +455,36 @@ func Run(c Case) (*Trace, error) {
 	if !env.WaitIdle(40*time.Millisecond, 30*time.Second) {
 		tr.Problems = append(tr.Problems, "operator did not become idle within 30s after the final ticks")
 	}
+	if c.Restart {
+		recs, _ = env.Tree.ReadLog()
+		for _, r := range recs {
+			if r.Phase == "start" {
+				tr.RestartIndex++
+			}
+		}
+		tr.Restarted = true
+		tr.ClusterAtRestart = map[string]int{}
+		for k, v := range tr.Cluster {
+			tr.ClusterAtRestart[k] = v
+		}
+		// gates that were never used in the first run must not park anything after the restart
+		for _, g := range gateOf {
+			_ = env.Tree.OpenGate(g)
+		}
+		// the operator is down while these changes happen
+		env.Op.Shutdown()
+		for _, st := range c.RestartOps {
+			if err := apply(st); err != nil {
+				return nil, fmt.Errorf("harness: %v", err)
+			}
+		}
+		if err := env.Restart(); err != nil {
+			return nil, fmt.Errorf("harness: restart: %v", err)
+		}
+		if !env.WaitIdle(40*time.Millisecond, 30*time.Second) {
+			tr.Problems = append(tr.Problems, "operator did not become idle within 30s after the restart: "+env.WhyNotIdle)
+		}
+	}
 	recs, _ = env.Tree.ReadLog()
 	ends := map[string]vh.Record{}
 	for _, r := range recs {
@@ -457,8 +505,26 @@ func Run(c Case) (*Trace, error) {
 		}
 		tr.Execs = append(tr.Execs, e)
 	}
-	sort.SliceStable(tr.Execs, func(i, j int) bool { return tr.Execs[i].Start < tr.Execs[j].Start })
+	if !tr.Restarted {
+		sort.SliceStable(tr.Execs, func(i, j int) bool { return tr.Execs[i].Start < tr.Execs[j].Start })
+	}
 	return tr, nil
+}
+
+// FirstRun returns the trace of the first operator run only (before the restart, if any).
+func (t *Trace) FirstRun() *Trace {
+	if !t.Restarted {
+		return t
+	}
+	c := *t
+	n := t.RestartIndex
+	if n > len(t.Execs) {
+		n = len(t.Execs)
+	}
+	c.Execs = t.Execs[:n]
+	c.Cluster = t.ClusterAtRestart
+	c.Restarted = false
+	return &c
 }
 
 // Hook returns the spec of a hook by name.
